@@ -96,9 +96,9 @@ type End struct {
 	// Blackhole: the link has gone dark in this direction - what is written from now on is accepted
 	// by the local kernel and never arrives (no error, no FIN, no RST)
 	Blackhole bool
-	closed   bool
-	waiting  bool
-	readWake chan struct{}
+	closed    bool
+	waiting   bool
+	readWake  chan struct{}
 
 	// Incoming cut: deliver only bytes below CutAt, then CutErr.
 	CutAt      int64 // -1: none
